@@ -88,6 +88,7 @@ structure PFlags where
   creat : Bool
   excl : Bool
   trunc : Bool
+  append : Bool := false     -- SSH_FXF_APPEND: the request server takes it as a wish to write, nothing more
   deriving DecidableEq, Repr, Inhabited
 
 /-- result of an open on the server: new state, error or object id -/
@@ -198,11 +199,13 @@ def srvReadAt (d : Bytes) (off len : Nat) : Bytes × Option SErr :=
     O_CREATE = 0x40, O_EXCL = 0x80, O_TRUNC = 0x200 -/
 def pflagsOf (flag : Nat) : PFlags :=
   { read := flag % 4 == 0 || flag % 4 == 2, write := flag % 4 == 1 || flag % 4 == 2,
-    creat := flag.testBit 6, excl := flag.testBit 7, trunc := flag.testBit 9 }
+    creat := flag.testBit 6, excl := flag.testBit 7, trunc := flag.testBit 9, append := flag.testBit 10 }
 
-/-- flags the correspondence drives: access mode 0, 1 or 2, any of O_CREATE, O_EXCL, O_TRUNC -/
+/-- flags the correspondence drives: access mode 0, 1 or 2, any of O_CREATE, O_EXCL, O_TRUNC, and
+    O_APPEND (which sftpfs hands on and the request server ignores: the handle starts at offset 0
+    like any other) -/
 def flagInDomain (flag : Nat) : Bool :=
-  flag % 4 != 3 && flag < 1024 && (flag / 4) % 16 == 0 && !flag.testBit 8
+  flag % 4 != 3 && flag < 2048 && (flag / 4) % 16 == 0 && !flag.testBit 8
 
 /-- `Client.open`: a handle that the request server treats as read-write ("Open"), write-only
     ("Put") or read-only ("Get") according to the flags -/
@@ -211,7 +214,7 @@ def clientOpen (s : Srv) (k : Key) (f : PFlags) : Srv × Option SErr :=
   match r.err with
   | some e => (r.st, some e)
   | none =>
-    let h : SHandle := { obj := r.id, key := k, rd := f.read, wr := f.write || f.creat || f.trunc }
+    let h : SHandle := { obj := r.id, key := k, rd := f.read, wr := f.write || f.creat || f.trunc || f.append }
     ({ r.st with hs := r.st.hs ++ [h] }, none)
 
 /-- result of a handle call -/
